@@ -552,9 +552,9 @@ def gen_long_history(rng, role, cycles=None):
 def gen_big_history(rng, role):
     """More than 64 KiB queued, handed out by partial drains, then refused and accepted sends: what is still
     queued must be exactly the accepted messages minus what was handed out."""
-    size = rng.choice([65536, 70000, 131072 + 5])
+    size = rng.choice([65536, 70000, 131072 + 5, 300000])
     big = bytes([rng.getrandbits(8)]) * size
-    first = rng.choice([65535, 65536, 65537, 70000, size, size + 10])
+    first = rng.choice([65535, 65536, 65537, 70000, size, size + 10] + ([131072, 131073, 140000, 200000, 290000] if size > 200000 else []))
     calls, meta = [], []
 
     def add(c, m=None):
@@ -600,7 +600,7 @@ def boundary_histories(role=None):
         rng = random.Random(20261001 + r)
         out.append(gen_long_history(rng, r, cycles=300))
         out.append(gen_long_history(rng, r, cycles=258))
-        for _ in range(3):
+        for _ in range(5):
             out.append(gen_big_history(rng, r))
     return out
 
